@@ -223,9 +223,20 @@ public:
     return first == NULL || (get_first()->empty() && get_first()->next == NULL);
   }
 
-  value_type& front() { return get_first()->front(); }
+  value_type& front() {
+    Block* b = get_first();
+    // pop_front() leaves an emptied block at the head until the next pop
+    while (b->empty() && b->next)
+      b = b->next;
+    return b->front();
+  }
 
-  const value_type& front() const { return get_first()->front(); }
+  const value_type& front() const {
+    const Block* b = get_first();
+    while (b->empty() && b->next)
+      b = b->next;
+    return b->front();
+  }
 
   template <typename HeapTy, typename... Args, bool C = Concurrent>
   auto emplace_front(HeapTy& heap, Args&&... args) ->
